@@ -116,6 +116,9 @@ def obligations(tier):
                                   dict(kind='state', representation=rep, types=tname, colours=cname, shape=[shape.height, shape.width], distinguished_cell='4 positions')))
         obs.append(Obligation(f'whole-observation-{rep}-keydoor-yellow-7x7', mk_whole('observation', rep, 'keydoor', 'yellow', Shape(7, 7), large=True),
                               dict(kind='observation', representation=rep, types='keydoor', colours='yellow', shape=[7, 7])))
+    # the gym layer after the representation was switched mid-episode (with earlier reads): arrays inside the NEWLY advertised space
+    from .c20 import PERM, mk as mk_gym
+    obs.append(Obligation('gym-layer-after-switching-representation-2x2', mk_gym(2, 2, PERM, 'switch'), dict(world='2x2', prior_reads='none / observation and state')))
     return obs
 
 
